@@ -96,6 +96,8 @@ FIRE = [
     ("complex-expectation-sign-of-imaginary", "C02", [(BACK, "            return exp_real if (exp_imag == 0.) else exp_real + 1.0j * exp_imag", "            return exp_real if (exp_imag == 0.) else exp_real - 1.0j * exp_imag")], "K"),
     ("complex-expectation-loses-requested-outcome", "C02", [(BACK, "            exp_imag = self.get_expectation_value(qb_op_imag, state_prep_circuit, initial_statevector=initial_statevector,\n                                                  desired_meas_result=desired_meas_result)", "            exp_imag = self.get_expectation_value(qb_op_imag, state_prep_circuit, initial_statevector=initial_statevector)")], "K"),
     ("complex-variance-subtracts", "C02", [(BACK, "else var_real + var_imag  # always", "else var_real - var_imag  # always")], "K"),
+    ("truncation-cleanup-with-budget-tolerance", "C14", [(OPS, "        self.terms = compressed_op\n        self.compress()", "        self.terms = compressed_op\n        self.compress(abs_tol=epsilon / frob_factor)")], "K9.truncation-bound"),
+    ("truncation-keeps-running-sum-of-magnitudes", "C14", [(OPS, "            coef2_sum += abs(coef)**2\n", "            coef2_sum += abs(coef)**2 / 2\n")], "K9.truncation-bound"),
     # ---- C06
     ("ladder-not-reversed", "C06", [(AU, "    gates += cnot_ladder_gates[::-1]", "    gates += cnot_ladder_gates")], "K9.exp-pauliword"),
     ("negative-angle-offset", "C06", [(AU, "    angle = 2.*coef if coef >= 0. else 4*np.pi+2*coef", "    angle = 2.*coef if coef >= 0. else 2*np.pi+2*coef")], "K9.angle-law"),
@@ -224,6 +226,7 @@ SILENT = [
     ("merge-condition-spelling", "C09", [(CIRC, "                if (gate.name, gate.target, gate.control) == (g_prev.name, g_prev.target, g_prev.control):", "                if gate.name == g_prev.name and gate.target == g_prev.target and gate.control == g_prev.control:")]),
     ("redundant-gates-all-spelling", "C09", [(CIRC, "        for qubit_i in qubits:\n            if not gate_qubits[qubit_i] or gate_qubits[qubit_i][-1][1].inverse() != gate:\n                remove_gate = False\n                break", "        remove_gate = all(gate_qubits[q] and gate_qubits[q][-1][1].inverse() == gate for q in qubits)")]),
     ("qubit-number-memoised", "C03", [(MT, "def get_qubit_number(mapping, n_spinorbitals):", "@functools.lru_cache(maxsize=None)\ndef get_qubit_number(mapping, n_spinorbitals):"), (MT, "from math import ceil\n", "from math import ceil\nimport functools\n")]),
+    ("truncation-divisor-spelling", "C14", [(OPS, "        frob_factor = 2**(n_qubits / 2)", "        frob_factor = sqrt(2**n_qubits)")]),
     ("angle-law-spelling", "C06", [(AU, "    angle = 2.*coef if coef >= 0. else 4*np.pi+2*coef", "    angle = 2.*coef + (0. if coef >= 0. else 4*np.pi)")]),
     ("cirq-branches-reordered", "C01", [(TCIRQ, '        elif gate_name in {"SWAP"}:\n            target_circuit.append(GATE_CIRQ[gate_name](qubit_list[gate.target[0]], qubit_list[gate.target[1]]))\n        elif gate_name in {"CSWAP"}:\n            next_gate = GATE_CIRQ[gate_name].controlled(num_controls)\n            target_circuit.append(next_gate(*control_list, qubit_list[gate.target[0]], qubit_list[gate.target[1]]))\n',
                                          '        elif gate_name in {"CSWAP"}:\n            next_gate = GATE_CIRQ[gate_name].controlled(num_controls)\n            target_circuit.append(next_gate(*control_list, qubit_list[gate.target[0]], qubit_list[gate.target[1]]))\n        elif gate_name in {"SWAP"}:\n            target_circuit.append(GATE_CIRQ[gate_name](qubit_list[gate.target[0]], qubit_list[gate.target[1]]))\n')]),
